@@ -180,6 +180,8 @@ def run_engine(ck, tier, seed, pids, with_passloop=False):
     for d in range(8):
         js += corpus.jobs(maxlines=600 if not q else 120, dirs=[d], with_fonttests=True, ppm=(12 if d % 2 else 0), opts=(6 if d % 3 == 0 else 0))
     js += corpus.jobs(maxlines=200, chunk=7, dirs=[0, 1, 3])
+    js += corpus.random_jobs(n=150 if q else 3000, seed=seed, dirs=[0, 1])
+    js += corpus.random_jobs(n=60 if q else 1000, seed=seed + 1, dirs=[3], ppm=12, opts=6)
     jf = os.path.join(tmp, "corpus_jobs.ndjson")
     open(jf, "w").write("\n".join(json.dumps(j) for j in js) + "\n")
     h = vlib.run_harness(exe, ["shape", jf], timeout=6000)
